@@ -10,7 +10,7 @@
 (* Each step is split in two so that the simulator chooses parameters      *)
 (* cheaply (Choose) and evaluates the semantic function once (Apply).      *)
 (***************************************************************************)
-EXTENDS Bid, Ops, Json, TLC
+EXTENDS Bid, Text, Json, TLC
 
 CONSTANTS Depth, NReg
 
@@ -35,7 +35,7 @@ Init == /\ reg = [r \in Regs |-> ZeroV(FALSE)] /\ mode = RNE /\ pick = [op |-> "
 
 \* three small steps per operation: the kind, its parameters, its effect (so that the simulator, which picks uniformly
 \* among the successors, gives every kind of operation the same weight and evaluates one semantic function per step)
-Kinds == {"Load", "Bin", "BinDefault", "Un", "Round", "MinMax", "SetMode"}
+Kinds == {"Load", "Bin", "BinDefault", "Un", "Round", "MinMax", "SetMode", "QuoRem", "Text", "Scale"}
 ChooseKind ==
   /\ pick.op = "none" /\ Len(hist) < Depth
   /\ \E k \in Kinds : pick' = [op |-> "kind", kind |-> k]
@@ -52,6 +52,11 @@ ChooseParams ==
                                  pick' = [op |-> "Round", a |-> a, d |-> d, m |-> m, dp |-> dp]
        [] pick.kind = "MinMax" -> \E f \in {"Min", "Max"}, a \in Regs, b \in Regs, d \in Regs : pick' = [op |-> f, a |-> a, b |-> b, d |-> d]
        [] pick.kind = "SetMode" -> \E m \in Modes : pick' = [op |-> "SetMode", m |-> m]
+       [] pick.kind = "QuoRem" -> \E a \in Regs, b \in Regs, d \in Regs, d2 \in Regs, m \in Modes :
+                                 d # d2 /\ pick' = [op |-> "QuoRem", a |-> a, b |-> b, d |-> d, d2 |-> d2, m |-> m, wm |-> TRUE]
+       [] pick.kind = "Text" -> \E a \in Regs, d \in Regs : pick' = [op |-> "Text", a |-> a, d |-> d]          \* Parse(String(reg[a]))
+       [] pick.kind = "Scale" -> \E a \in Regs, d \in Regs, k \in {0 - 6200, 0 - 40, 0 - 35, 0 - 1, 0, 1, 34, 35, 6100} :
+                                 pick' = [op |-> "Ldexp", a |-> a, d |-> d, k |-> k]
   /\ UNCHANGED <<reg, mode, hist>>
 Choose == ChooseKind \/ ChooseParams
 
@@ -69,15 +74,21 @@ Result(p) ==
     [] p.op = "Canonical" -> Plain(CanonV(reg[p.a]))
     [] p.op = "Round" -> LET s == RoundSem(reg[p.a], p.dp, p.m) IN IF s.t = "same" THEN reg[p.a] ELSE Plain(s.v)
     [] p.op \in {"Min", "Max"} -> Plain(MinMaxSem(reg[p.a], reg[p.b], p.op = "Max"))
+    [] p.op = "QuoRem" -> Plain(QuoRemSem(reg[p.a], reg[p.b], mm)[1])
+    [] p.op = "Text" -> IF reg[p.a].k = "nan" THEN reg[p.a] ELSE Plain(ParseSem(StringSem(reg[p.a]), mode).val)
+    [] p.op = "Ldexp" -> IF reg[p.a].k = "nan" THEN reg[p.a] ELSE Plain(Resolve(LdexpExact(reg[p.a], p.k), mode))
+\* second result (the remainder of QuoRem)
+Result2(p) == LET mm == IF "wm" \in DOMAIN p /\ p.wm THEN p.m ELSE mode IN Plain(QuoRemSem(reg[p.a], reg[p.b], mm)[2])
 
 Apply ==
   /\ pick.op \notin {"none", "kind"}
   /\ IF pick.op = "SetMode"
      THEN mode' = pick.m /\ reg' = reg /\ hist' = Append(hist, pick)
      ELSE LET v == Result(pick) IN
-          /\ reg' = [reg EXCEPT ![pick.d] = v]
+          /\ reg' = IF pick.op = "QuoRem" THEN [reg EXCEPT ![pick.d] = v, ![pick.d2] = Result2(pick)] ELSE [reg EXCEPT ![pick.d] = v]
           /\ mode' = mode
-          /\ hist' = Append(hist, pick @@ [exp |-> v, bits |-> (IF pick.op = "Load" THEN Encode(v) ELSE << >>)])
+          /\ hist' = Append(hist, pick @@ [exp |-> v, exp2 |-> (IF pick.op = "QuoRem" THEN Result2(pick) ELSE v),
+                                            bits |-> (IF pick.op = "Load" THEN Encode(v) ELSE << >>)])
   /\ pick' = [op |-> "none"]
 
 Next == Choose \/ Apply
